@@ -49,17 +49,37 @@ function inbucket.before.mail_from_accepted(session)
 end
 `
 
+// the gate handler, which raises an error for one particular sender (without pausing)
+const c17GateScriptErr = `
+function inbucket.before.mail_from_accepted(session)
+  local who = session.from.address
+  if who == "boom@x.test" then
+    error("boom")
+  end
+  local token = gate:receive()
+  if who == "deny@x.test" then
+    return smtp.deny(550, "no " .. who)
+  end
+  if session.from.address ~= who then
+    return smtp.deny(599, "state corrupted: " .. who .. " vs " .. session.from.address)
+  end
+  return smtp.allow()
+end
+`
+
 type c17SchedSpec struct {
-	ID     string
-	Level  string // emit | session
-	Global bool   // the script keeps its datum in a global
-	Bound  [2]int
+	ID       string
+	Level    string // emit | session
+	Global   bool   // the script keeps its datum in a global
+	ErrFirst bool   // before the two callers start, one call makes the handler raise an error
+	Bound    [2]int
 }
 
 func c17SchedSpecs() []c17SchedSpec {
 	return []c17SchedSpec{
 		{ID: "L1-two-emitters-pausing-handler", Level: "emit", Bound: [2]int{2, 3}},
 		{ID: "L3-two-emitters-handler-using-a-global", Level: "emit", Global: true, Bound: [2]int{2, 3}},
+		{ID: "L4-two-emitters-after-a-handler-error", Level: "emit", ErrFirst: true, Bound: [2]int{2, 3}},
 		{ID: "L2-two-smtp-sessions-pausing-handler", Level: "session", Bound: [2]int{1, 2}},
 	}
 }
@@ -79,6 +99,9 @@ func c17SchedScenario(c *fw.Ctx, sp c17SchedSpec) schedScenario {
 				script := c17GateScript
 				if sp.Global {
 					script = c17GateScriptGlobal
+				}
+				if sp.ErrFirst {
+					script = c17GateScriptErr
 				}
 				s = sys.New(sys.Spec{Store: sys.StoreSpec{Backend: "mem"}, SMTP: smtp, Lua: script, NoHub: true})
 				gate = s.Lua.CreateChannel("gate")
@@ -126,6 +149,13 @@ func c17SchedScenario(c *fw.Ctx, sp c17SchedSpec) schedScenario {
 						gate <- lua.LTrue
 					}
 				}})
+				var init func()
+				if sp.ErrFirst {
+					// a broken call first: its Lua state goes back to the pool exactly once
+					init = func() {
+						_ = s.Ext.Events.BeforeMailFromAccepted.Emit(&event.SMTPSession{From: &mail.Address{Address: "boom@x.test"}, RemoteAddr: "pipe"})
+					}
+				}
 				cleanup := func() {
 					// release anything still waiting on the gate
 					for i := 0; i < 4; i++ {
@@ -139,7 +169,7 @@ func c17SchedScenario(c *fw.Ctx, sp c17SchedSpec) schedScenario {
 					}
 					s.Close()
 				}
-				return nil, ths, cleanup
+				return init, ths, cleanup
 			})
 		})
 		if leaked != "" && (e == nil || (len(e.Panics) == 0 && !e.Deadlock)) {
